@@ -695,8 +695,14 @@ func (c *client) loopRead() {
 		}
 
 		verifpoint.HitArg("redis.client.read.before-dequeue", c)
-		req := <-c.processingReqs
-		c.handleResp(req, resp)
+		// NOTE: the writer hands a request over after it has been flushed, so the
+		// reply can be here first; once the client quits nothing may follow.
+		select {
+		case req := <-c.processingReqs:
+			c.handleResp(req, resp)
+		case <-c.quit:
+			return
+		}
 	}
 }
 
